@@ -65,6 +65,15 @@ void *malloc(__CPROVER_size_t);
 #define VF_KNOWN_EXCL(w) __CPROVER_assume(!(w))
 #define VF_KNOWN_ONLY(w) __CPROVER_assume(w)
 
+/* contract shorthands (clauses go through the C preprocessor) */
+#define OFF(p) __CPROVER_POINTER_OFFSET(p)
+#define SAME(p, q) __CPROVER_same_object((p), (q))
+#define OLD(e) __CPROVER_old(e)
+#define ENTRY(e) __CPROVER_loop_entry(e)
+#define RET __CPROVER_return_value
+#define FRESH(p, n) __CPROVER_is_fresh((p), (n))
+unsigned long nondet_ulong(void);
+
 typedef unsigned long vf_size_t;
 typedef __int128 vf_i128;
 typedef unsigned __int128 vf_u128;
